@@ -132,6 +132,10 @@ pub const NOISE: &[&str] = &[
     "<blockquote cite='x'>",
 ];
 
+/// Look-alikes that are only safe as the last thing of their own comment (an unclosed quote followed by a
+/// later quote character in the same comment would legitimately form a tag).
+pub const NOISE_UNCLOSED: &[&str] = &["<block name=\"never closed>", "<block name='x>", "<block", "<block name", "<block name=", "text <block a=\"1\" b='2>"];
+
 pub const DECOY_TAGS: &[&str] = &["<block name=decoy>", "</block>", "<block>", "<block keep-sorted>", "</ block >"];
 
 #[derive(Clone, Debug, Serialize, Deserialize)]
@@ -247,6 +251,29 @@ pub fn sanitise_tag(lang: &Lang, form: Form, tag: &StartTag, multiline_ok: bool)
         w
     };
     for a in &mut t.attrs {
+        if matches!(form, Form::MdRef(_)) && a.name != "check-lua-pattern" {
+            // a backslash before punctuation is an escape in a CommonMark title (and one before the closing
+            // delimiter un-closes it): keep the generated Markdown definitions valid
+            a.val = match &a.val {
+                Val::Single(v) => Val::Single(v.replace('\\', "~")),
+                Val::Double(v) => Val::Double(v.replace('\\', "~")),
+                o => o.clone(),
+            };
+        }
+        let dash_host = form == Form::MdHtml || (form == Form::Block && lang.block.map(|b| b.1) == Some("-->"));
+        if dash_host {
+            // `--` (let alone `-->`) cannot occur inside an XML/HTML comment
+            while a.name.contains("--") {
+                a.name = a.name.replace("--", "-x");
+            }
+            if let Val::Unquoted(v) = &a.val {
+                let mut v = v.clone();
+                while v.contains("--") {
+                    v = v.replace("--", "-x");
+                }
+                a.val = Val::Unquoted(v);
+            }
+        }
         a.ws_before = fix_ws(&a.ws_before, true);
         a.ws_eq_l = fix_ws(&a.ws_eq_l, false);
         a.ws_eq_r = fix_ws(&a.ws_eq_r, false);
@@ -426,7 +453,9 @@ pub fn build(lang: &Lang, events: &[Ev], crlf: bool) -> Built {
             }
             Ev::Noise { form, text, indent } => {
                 let form = fs[*form as usize % fs.len()];
-                let t = sanitise_text(lang, form, NOISE[*text as usize % NOISE.len()]);
+                let k = *text as usize % (NOISE.len() + NOISE_UNCLOSED.len());
+                let raw = if k < NOISE.len() { NOISE[k] } else { NOISE_UNCLOSED[k - NOISE.len()] };
+                let t = sanitise_text(lang, form, raw);
                 segs.push(Seg::Comment(CommentSeg { form, indent: (*indent % 9) as usize, lead: false, trail: false, star: false, parts: vec![Part::Text(t)] }));
                 prev_was_tag = false;
             }
@@ -679,4 +708,30 @@ pub fn events_strategy(tag: BoxedStrategy<StartTag>, max_len: usize) -> BoxedStr
         1 => Just(Ev::Blank),
     ];
     proptest::collection::vec(ev, 1..max_len).boxed()
+}
+
+/// Wild start tags for the round trip (C05): names over ASCII/Unicode letters, digits, `-`, `_`; every value
+/// kind; quoted values over printable characters minus the enclosing quote; duplicates; arbitrary whitespace.
+pub fn wild_tag_strategy() -> BoxedStrategy<StartTag> {
+    let name = prop_oneof![
+        3 => proptest::string::string_regex("[a-zA-Z0-9éж名_-]{1,8}").unwrap(),
+        1 => prop_oneof![Just("name".to_string()), Just("a".to_string()), Just("keep-sorted".to_string())],
+    ];
+    let ws1 = prop_oneof![5 => Just(" ".to_string()), 1 => Just("  ".to_string()), 1 => Just("\t".to_string()), 1 => Just("\n".to_string()), 1 => Just(" \n  ".to_string())];
+    let ws0 = prop_oneof![6 => Just(String::new()), 1 => Just(" ".to_string()), 1 => Just("\t ".to_string()), 1 => Just("\n".to_string())];
+    let quoted = proptest::string::string_regex("[ -~éж名😀]{0,14}").unwrap();
+    let special = prop_oneof![Just("a>b"), Just("<x>"), Just("k=v"), Just("it's"), Just("say \"hi\""), Just("</block>"), Just("<block name=\"inner\">"), Just(" > "), Just("")];
+    let attr = (name, 0u8..5, quoted, special, proptest::string::string_regex("[a-zA-Z0-9éж_-]{1,6}").unwrap(), ws1, ws0.clone(), ws0.clone()).prop_map(|(name, kind, q, sp, uq, ws_before, ws_eq_l, ws_eq_r)| {
+        let val = match kind {
+            0 => Val::None,
+            1 => Val::Unquoted(uq),
+            2 => Val::Single(q.replace('\'', "")),
+            3 => Val::Double(q.replace('"', "")),
+            _ => {
+                if sp.contains('"') { Val::Single(sp.to_string()) } else { Val::Double(sp.to_string()) }
+            }
+        };
+        Attr { name, val, ws_before, ws_eq_l, ws_eq_r }
+    });
+    (proptest::collection::vec(attr, 0..7), ws0).prop_map(|(attrs, ws_end)| StartTag { attrs, ws_end }).boxed()
 }
